@@ -104,11 +104,46 @@ def jid_write_inventory():
     return sites
 
 
+def sasl_object_write_inventory():
+    """functions of the TU that assign d->saslServer (operator=) -- only they can install a new SASL object; reset() only removes one"""
+    docs, _ = astx.dump(path(IC), 'QXmppIncomingClient')
+    sites = set()
+
+    def is_member(n):
+        while n.get('kind') in ('ImplicitCastExpr', 'ParenExpr', 'MaterializeTemporaryExpr', 'ExprWithCleanups'):
+            n = n['inner'][0]
+        return n.get('kind') == 'MemberExpr' and n.get('name') == 'saslServer'
+
+    def walk(n, fn):
+        if n.get('kind') == 'CXXOperatorCallExpr' and len(n.get('inner', [])) >= 2:
+            callee = n['inner'][0]
+            while 'referencedDecl' not in callee and callee.get('inner'):
+                callee = callee['inner'][0]
+            if callee.get('referencedDecl', {}).get('name') == 'operator=' and is_member(n['inner'][1]):
+                sites.add(fn)
+        if n.get('kind') == 'CXXMemberCallExpr':
+            me = n['inner'][0]
+            if me.get('kind') == 'MemberExpr' and me.get('inner') and is_member(me['inner'][0]) and me.get('name') in ('swap', 'release'):
+                sites.add(fn)
+        for c in n.get('inner', []):
+            if isinstance(c, dict):
+                walk(c, fn)
+    for d in docs:
+        stack = [d]
+        while stack:
+            x = stack.pop()
+            if x.get('kind') in ('CXXMethodDecl', 'CXXConstructorDecl', 'CXXDestructorDecl', 'FunctionDecl') and astx.has_body(x):
+                walk(x, x.get('name'))
+            elif x.get('kind') in ('CXXRecordDecl', 'NamespaceDecl'):
+                stack.extend(c for c in x.get('inner', []) if isinstance(c, dict))
+    return sites
+
+
 WRITERS_UNDER_CONTRACT = {'handleStanza', 'onPasswordReply', 'onSasl2Authenticated'}
 
 
 def build(work, tier):
-    prewarm([(path(IC), 'QXmppIncomingClient'), (path(IC), 'XmppSocket'), (path(IC), 'QXmppPasswordRe'), (path(PC), 'QXmppPasswordRequest::'), (path(PC), 'QXmppPasswordReply::'), (path(PC), 'QXmppPasswordChecker::checkPassword'), (path(SASL), 'QXmppSaslServerPlain::respond'), (path(SASL), 'QXmppSaslServerAnonymous::respond'), (path(IC), 'QXmppIq')])
+    prewarm([(path(IC), 'QXmppIncomingClient'), (path(IC), 'XmppSocket'), (path(IC), 'QXmppPasswordRe'), (path(PC), 'QXmppPasswordRequest::'), (path(PC), 'QXmppPasswordReply::'), (path(PC), 'QXmppPasswordChecker::checkPassword'), (path(SASL), 'QXmppSaslServerPlain::respond'), (path(SASL), 'QXmppSaslServerAnonymous::respond'), (path(SASL), 'QXmppSaslServerPlain::mechanism'), (path(SASL), 'QXmppSaslServerAnonymous::mechanism'), (path(SASL), 'QXmppSaslServerDigestMd5::mechanism'), (path(IC), 'QXmppIq')])
     # ------------------------------------------------------------------ the connection's private record, from the real class
     fields, pdecl = ctx.record_fields(path(IC), 'QXmppIncomingClient', 'QXmppIncomingClientPrivate')
     fd = dict(fields)
@@ -154,6 +189,12 @@ def build(work, tier):
     low(PC, 'QXmppPasswordChecker::checkPassword', 'checkPassword', 'QXmppPasswordChecker_checkPassword_base', 'QXmppPasswordChecker', 'checkPassword.spec')
     low(SASL, 'QXmppSaslServerPlain::respond', 'respond', 'QXmppSaslServerPlain_respond', 'QXmppSaslServer', 'plainRespond.spec')
     low(SASL, 'QXmppSaslServerAnonymous::respond', 'respond', 'QXmppSaslServerAnonymous_respond', 'QXmppSaslServer', 'anonymousRespond.spec')
+    for cls, mech in (('QXmppSaslServerPlain', 'PLAIN'), ('QXmppSaslServerAnonymous', 'ANONYMOUS'), ('QXmppSaslServerDigestMd5', 'DIGEST-MD5')):
+        sp = Spec(b.subst(rd('mechanismName.spec.in').replace('@NAME@', mech)))
+        cn = cls + '_mechanism'
+        lowered[cn] = b.lower(Target(SASL, cls + '::mechanism', 'mechanism', cn, this='QXmppSaslServer', parent=None, lowerer_cls=C16Lowerer), sp)
+        specs[cn] = sp
+        lws.append(b.last)
     helpers = []
     for src, filt, name, cname, this in ((IC, 'QXmppIncomingClient', 'sendData', 'QXmppIncomingClient_sendData', 'QXmppIncomingClient'),
                                          (IC, 'QXmppIncomingClient', 'disconnectFromHost', 'QXmppIncomingClient_disconnectFromHost', 'QXmppIncomingClient'),
@@ -176,6 +217,10 @@ def build(work, tier):
     if not writers <= WRITERS_UNDER_CONTRACT:
         raise ToolError('d->jid is assigned in functions the unit does not cover: %s' % sorted(writers - WRITERS_UNDER_CONTRACT))
 
+    installers = sasl_object_write_inventory()
+    if not installers <= {'handleStanza'}:
+        raise ToolError('d->saslServer is assigned in functions the unit does not cover (SASL object invariant): %s' % sorted(installers - {'handleStanza'}))
+
     # ------------------------------------------------------------------ assemble one C file
     payload = sorted(set().union(*[lw.need_payload for lw in lws]))
     payload_defs = '\n'.join('#define XML_%s %d' % (t, 1000000 + i) for i, t in enumerate(payload))
@@ -186,12 +231,12 @@ def build(work, tier):
     saslver_defs = '\n'.join('#define SASLVER_%s %d' % (k, v) for k, v in saslver.items())
     iq_types = ctx.enum_values(path(IC), 'QXmppIq::Type')
     pre_defs = '#define IQ_TYPE_GET %d' % iq_types['Get']
-    main_fns = ['QXmppSaslServerPlain_respond', 'QXmppSaslServerAnonymous_respond', 'QXmppPasswordChecker_checkPassword_base', 'QXmppIncomingClientPrivate_checkCredentials', 'QXmppIncomingClient_onSasl2Authenticated', 'QXmppIncomingClient_handleStanza',
+    main_fns = ['QXmppSaslServerPlain_mechanism', 'QXmppSaslServerAnonymous_mechanism', 'QXmppSaslServerDigestMd5_mechanism', 'QXmppSaslServerPlain_respond', 'QXmppSaslServerAnonymous_respond', 'QXmppPasswordChecker_checkPassword_base', 'QXmppIncomingClientPrivate_checkCredentials', 'QXmppIncomingClient_onSasl2Authenticated', 'QXmppIncomingClient_handleStanza',
                 'QXmppIncomingClient_onPasswordReply', 'QXmppIncomingClient_onDigestReply']
     protos = '\n'.join(lowered[f].split('\n')[0] + ';' for f in main_fns + helpers)
     seen_ctx = set()
     ctxt = '\n'.join(l for l in b.context().split('\n') if not (l.startswith(('enum {', 'static const')) and (l in seen_ctx or seen_ctx.add(l))))   # same enum met in two TUs
-    body = '\n'.join(lowered[f] for f in helpers + main_fns)
+    body = '\n'.join(lowered[f] for f in helpers) + '\n' + '\n'.join(getattr(b, 'lifted', [])) + '\n' + '\n'.join(lowered[f] for f in main_fns)   # lifted local lambdas precede their users
     harness = '''
 void h_handleStanza(void) { gh_havoc(); QXmppIncomingClient *self; qdom nodeRecv; QXmppIncomingClient_handleStanza(self, nodeRecv); }
 void h_onPasswordReply(void) { gh_havoc(); QXmppIncomingClient *self; QXmppIncomingClient_onPasswordReply(self); }
@@ -199,6 +244,9 @@ void h_onDigestReply(void) { gh_havoc(); QXmppIncomingClient *self; QXmppIncomin
 void h_onSasl2Authenticated(void) { gh_havoc(); QXmppIncomingClient *self; QXmppIncomingClient_onSasl2Authenticated(self); }
 void h_plainRespond(void) { gh_havoc(); QXmppSaslServer *self; qbytes request; qbytes *response; QXmppSaslServerPlain_respond(self, request, response); }
 void h_anonymousRespond(void) { gh_havoc(); QXmppSaslServer *self; qbytes request; qbytes *response; QXmppSaslServerAnonymous_respond(self, request, response); }
+void h_mechPlain(void) { const QXmppSaslServer *self; QXmppSaslServerPlain_mechanism(self); }
+void h_mechAnonymous(void) { const QXmppSaslServer *self; QXmppSaslServerAnonymous_mechanism(self); }
+void h_mechDigest(void) { const QXmppSaslServer *self; QXmppSaslServerDigestMd5_mechanism(self); }
 void h_checkPassword(void) { gh_havoc(); QXmppPasswordChecker *self; const QXmppPasswordRequest *request; QXmppPasswordChecker_checkPassword_base(self, request); }
 void h_checkCredentials(void) { gh_havoc(); QXmppIncomingClientPrivate *self; qbytes response; QXmppIncomingClientPrivate_checkCredentials(self, response); }
 '''
@@ -226,7 +274,9 @@ void h_checkCredentials(void) { gh_havoc(); QXmppIncomingClientPrivate *self; qb
     CC, S2A = 'QXmppIncomingClientPrivate_checkCredentials', 'QXmppIncomingClient_onSasl2Authenticated'
     proof('plainRespond', 'h_plainRespond', 'QXmppSaslServerPlain_respond', stubs, (),
           note='loop-free; every payload (QByteArray::split / fromUtf8 as uninterpreted functions of the bytes), every step counter')
-    proof('anonymousRespond', 'h_anonymousRespond', 'QXmppSaslServerAnonymous_respond', stubs, (), note='loop-free')
+    proof('anonymousRespond', 'h_anonymousRespond', 'QXmppSaslServerAnonymous_respond', stubs, (), note='loop-free; this postcondition is the ANONYMOUS clause of the respond contract used in the handlers')
+    for h_, cn in (('h_mechPlain', 'QXmppSaslServerPlain_mechanism'), ('h_mechAnonymous', 'QXmppSaslServerAnonymous_mechanism'), ('h_mechDigest', 'QXmppSaslServerDigestMd5_mechanism')):
+        proof(cn, h_, cn, [], (), note='loop-free; the override names its mechanism')
     proof('checkPassword', 'h_checkPassword', 'QXmppPasswordChecker_checkPassword_base', stubs + ['QXmppPasswordChecker_getPassword', 'QXmppPasswordReply_new', 'QXmppPasswordReply_finishLater'], (),
           note='loop-free; the bundled QXmppPasswordChecker::checkPassword: every request, every verdict and secret of the (virtual) account lookup')
     proof('checkCredentials', 'h_checkCredentials', CC, stubs, (), note='loop-free; every mechanism name, every credential string')
@@ -271,7 +321,7 @@ ASSUMED = [
     'abstract DOM and opaque strings (qtmodel/opaque.h); QDomElement::setAttribute as a two-entry write log over it (QDomElement copies share the node) (units/C16/model.h)',
     'QString::arg / operator+ are uninterpreted functions of (format literal, operands); a format with text outside the placeholders yields a non-empty string',
     'A-QTIMER, A-QSSL, A-QOBJECT (units/C16/model.h): timer, socket flush/startServerEncryption, setParent/deleteLater/dynamic properties act on their own object only; sender() is the reply whose finished() runs the slot',
-    'in the connection handlers QXmppSaslServer::respond (virtual) returns any of the four verdicts and may set the object\'s username/password (the PLAIN and ANONYMOUS overrides are verified separately against their own contracts); create() returns nullptr or a new object of the requested mechanism; mechanism() is constant per object; username()/password()/realm()/setUsername()/setPassword()/setRealm()/setPasswordDigest() are field accessors',
+    'in the connection handlers QXmppSaslServer::respond (virtual) obeys the contract of the override of the object\'s mechanism: PLAIN never Succeeded and ANONYMOUS Succeeded exactly at step 0 / names no user (both verified on the real overrides), DIGEST-MD5 any verdict with Succeeded only after step >= 1 (assumed; its Succeeded rests on the digest of the checker\'s secret handed over by onDigestReply); virtual dispatch selects the override whose mechanism() names the object\'s mechanism (the three mechanism() overrides are verified); create() returns nullptr or a new step-0 object of one of the three mechanisms with the requested name (assumed, std::make_unique chain not lowered); every SASL object is installed by handleStanza, which calls respond() on it at once (AST inventory + verified invariant), handleStream only removes it; username()/password()/realm()/setUsername()/setPassword()/setRealm()/setPasswordDigest() are field accessors',
     'A-SPLIT: QByteArray::split yields at least one part; the parts and their number, and QString::fromUtf8, are functions of the bytes (uninterpreted)',
     'inside the bundled checkPassword: getPassword() (virtual account lookup) returns any verdict and secret; new QXmppPasswordReply starts with NoError / not finished (its constructor\'s initialisers); finishLater() only schedules finished()',
     'QXmppPasswordChecker::checkPassword / getDigest (virtual, asynchronous) return a new reply object for the request; the reply that later runs a slot answers the request recorded for it (gh_sender_req_*)',
@@ -300,9 +350,10 @@ REPLAY_MODES = {
     'post.resource_bound_only_if_authenticated': ['unauth-bind'],
     'post.session_result_only_if_authenticated_and_addressed_to_the_sender': ['unauth-session'],
     'post.identity_changes_only_by_sasl_success_to_user_at_domain_or_by_binding_when_authenticated': ['unauth-bind'],
-    'post.stanza_with_a_foreign_from_is_never_routed': ['spoof-from'],
-    'post.routed_stanza_carries_the_senders_own_full_or_bare_address': ['spoof-from', 'good-from'],
+    'post.stanza_with_a_foreign_from_is_never_routed': ['spoof-from', 'prefix-from'],
+    'post.routed_stanza_carries_the_senders_own_full_or_bare_address': ['spoof-from', 'prefix-from', 'good-from'],
     'post.client_supplied_own_address_is_kept_and_a_missing_one_is_stamped': ['good-from', 'spoof-from'],
+    'post.sasl_success_authenticates_only_for_a_mechanism_backed_by_the_password_checker': ['anonymous-auth'],
     'post.identity_assigned_only_on_the_checkers_approval': ['wrong-password'],
     'lemma.approval_is_credited_to_exactly_the_user_and_domain_the_checker_was_asked_about': ['wrong-password', 'pipelined-auth', 'slow-fail-impersonation'],
     'post.success_announced_only_on_approval': ['wrong-password'],
@@ -310,7 +361,7 @@ REPLAY_MODES = {
 }
 # modes that show a recorded finding: they reproduce on the unchanged tree, so they say nothing about a violation found outside that finding's class
 FINDING_MODES = {'unauth-message': F1, 'unauth-bind': F1, 'unauth-session': F1, 'pipelined-auth': F2, 'slow-fail-impersonation': F2, 'restart-pending-reply': F3}
-ALL_MODES = ['wrong-password', 'unauth-message', 'unauth-bind', 'unauth-session', 'spoof-from', 'good-from', 'pipelined-auth', 'slow-fail-impersonation', 'restart-pending-reply']
+ALL_MODES = ['prefix-from', 'anonymous-auth', 'wrong-password', 'unauth-message', 'unauth-bind', 'unauth-session', 'spoof-from', 'good-from', 'pipelined-auth', 'slow-fail-impersonation', 'restart-pending-reply']
 
 
 def run_mode(mode):
